@@ -77,14 +77,16 @@ VARIABLES cache,     \* layer B: the pipeline's cache
           verdict,   \* "ok", or the diagnosed cause of the first call that returned a value other than Eval_now
           dvers,     \* description versions, for the diagnosis
           tab        \* TabOf(d): everything about the call alphabet that depends on d only (keys, required results).
-                     \* A function of d, kept in the state so that TLC computes it once per description version
-                     \* instead of once per state.
+                     \* A function of d, kept in the state so that TLC computes it once per distinct description
+                     \* state instead of once per transition: a mutation leaves tab "not ready", the stuttering-like
+                     \* step HPrepare fills it in (performance device only; HTabSane checks tab = TabOf(d)).
 hvars == <<cvars, avars, cache, hist, verdict, dvers, tab>>
 CallRec(dd, c) == [o |-> c[1], k |-> c[2],
                    ks   |-> [i \in FIdx(dd) |-> ImplKey(dd, c[2], i)],
                    need |-> Needed(dd, c[2], c[1]),
                    req  |-> [m \in Modes |-> Required(dd, c[2], c[1], m)]]
-TabOf(dd) == LET cs == CallSet(dd) IN [calls |-> {CallRec(dd, c) : c \in cs}, keys |-> KeyTable(dd, cs)]
+TabOf(dd) == LET cs == CallSet(dd) IN [ready |-> TRUE, calls |-> {CallRec(dd, c) : c \in cs}, keys |-> KeyTable(dd, cs)]
+NoTab     == [ready |-> FALSE, calls |-> {}, keys |-> {}]
 
 HInit == /\ d \in MyInstances /\ phase = "idle" /\ out = "" /\ kw = <<>> /\ mode = "call" /\ done = {}
          /\ AInit /\ cache = {} /\ hist = <<>> /\ verdict = "ok"
@@ -105,24 +107,27 @@ HMutate(m) == /\ Len(dvers) - 1 < MaxMut /\ MutApplicable(d, m)
               /\ d' = ApplyMut(d, m)
               /\ cache' = ICacheMut(cache, m)
               /\ dvers' = Append(dvers, [kind |-> m.kind, d |-> d'])
-              /\ tab' = TabOf(d')
+              /\ tab' = NoTab
               /\ hist' = Append(hist, [op |-> "mutate", kind |-> m.kind, f |-> m.f, p |-> m.p, v |-> m.v, func |-> m.func])
               /\ UNCHANGED <<phase, out, kw, mode, done, avars, verdict>>
 
-HNext == /\ verdict = "ok" /\ Len(hist) < MaxLen
-         /\ \/ \E r \in tab.calls, m \in Modes : (m = "full" => FirstValues(r.k)) /\ HCall(r, m)
-            \/ \E m \in MutSet(d) : HMutate(m)
+HPrepare == ~tab.ready /\ tab' = TabOf(d) /\ UNCHANGED <<cvars, avars, cache, hist, verdict, dvers>>
+
+HNext == \/ HPrepare
+         \/ /\ tab.ready /\ verdict = "ok" /\ Len(hist) < MaxLen
+            /\ \/ \E r \in tab.calls, m \in Modes : (m = "full" => FirstValues(r.k)) /\ HCall(r, m)
+               \/ \E m \in MutSet(d) : HMutate(m)
 HSpec == HInit /\ [][HNext]_hvars
 
 (* states are identified up to provenance and the particular history that led there *)
-HView == <<d, {[k |-> e.k, v |-> e.v] : e \in cache}, Len(hist), Len(dvers), verdict>>
+HView == <<d, {[k |-> e.k, v |-> e.v] : e \in cache}, Len(hist), Len(dvers), verdict, tab.ready>>
 
-HCoherent == CoherentT(cache, tab.keys)          \* = Coherent(d, cache, CallSet(d))
-HTabSane  == Len(hist) = 0 => tab = TabOf(d)
+HCoherent == tab.ready => CoherentT(cache, tab.keys)          \* = Coherent(d, cache, CallSet(d))
+HTabSane  == (tab.ready /\ Len(hist) <= 1) => tab = TabOf(d)
 HCorrect  == verdict = "ok"
 HCutsAgree == Len(hist) = 0 => \A o \in AllOutputs(d) : FastCuts(d, o) = Cuts(d, o)
 (* one entry per key, never the null key *)
 HKeysSane == \A e \in cache : e.k # NoKey /\ \A x \in cache : x.k = e.k => x = e
-HExport   == (Export /\ (Len(hist) = MaxLen \/ verdict # "ok")) =>
+HExport   == (Export /\ tab.ready /\ (Len(hist) = MaxLen \/ verdict # "ok")) =>
                 PrintT(<<"HIST", ToJson([desc |-> dvers[1].d, hist |-> hist, verdict |-> verdict, coherent |-> HCoherent])>>)
 =============================================================================
